@@ -24,9 +24,11 @@ def simplify(t, facts: Dict[tuple, tuple], nonnull=(), vfacts: Optional[Dict[tup
     if not isinstance(t[0], str):
         return tuple(simplify(c, facts, nonnull, vf) for c in t)
     k = t[0]
+    if k in ("cmp", "not", "and", "or") and t in facts:
+        return facts[t]
+    if k in ("cmp", "not", "and", "or") and NOT(t) in facts:
+        return NOT(facts[NOT(t)])
     if k == "cmp":
-        if t in facts:
-            return facts[t]
         neg = ("cmp", CMP_NEG[t[1]], t[2], t[3]) if t[1] in ("in", "notin", "is", "isnot", "eq", "ne") else None
         if neg is not None and neg in facts:
             return NOT(facts[neg])
@@ -148,3 +150,29 @@ def memo_verdict(sc: Dict[str, Scenario], table: tuple, key: tuple, make_ok) -> 
     if any(e.idx < a.writes[0][0].idx and e.kind == "return" for e, _, _ in a.returns):
         return False, "a return precedes the registration"
     return True, ""
+
+
+def ite_conditions(*terms) -> List[tuple]:
+    """The conditions of the conditional values inside the terms (outermost first, no duplicates)."""
+    from .sym import walk
+    out = []
+    for t in terms:
+        for x in walk(t):
+            if x[0] == "ite" and x[1] not in out and NOT(x[1]) not in out:
+                out.append(x[1])
+    return out
+
+
+def cases(*terms, limit=5):
+    """Case split over the conditions of the conditional values in `terms`: yields (facts, simplified terms) for every
+    combination of truth values (conditions nested under a decided branch disappear by simplification)."""
+    import itertools
+    conds = ite_conditions(*terms)[:limit]
+    seen = set()
+    for vals in itertools.product((TRUE, FALSE), repeat=len(conds)):
+        facts = dict(zip(conds, vals))
+        out = tuple(simplify(t, facts) for t in terms)
+        if out in seen:
+            continue
+        seen.add(out)
+        yield facts, out
